@@ -1,5 +1,6 @@
     requires rest(read).len() <= u64::MAX,
     ensures
+        r is Ok ==> hash_algs@.len() > 0,     // [C18]
         r is Ok ==> r->Ok_0.0 == rest(read).len(),     // [C18]
         r is Ok ==> forall|i: int| 0 <= i < hash_algs@.len() ==> (#[trigger] r->Ok_0.1@.contains_key(hash_algs@[i]))
             && r->Ok_0.1@[hash_algs@[i]].bytes() == digest::digest_of(alg_id(hash_algs@[i]), rest(read)),   // [C18]
